@@ -396,8 +396,13 @@ class Sym:
     # ---- ufunc-style methods (NumPy object loops call these)
     def sqrt(s):
         n = s.n
-        if n.op == "mul" and len(n.args[0]) == 1 and n.args[0][0][1] == 2:
-            return abs(Sym(n.args[0][0][0]))          # sqrt(x**2) = |x|
+        ka, fa = dag._fac(n)
+        if fa and all(e % 2 == 0 for e in fa.values()) and not isinstance(ka, dag.QS) and ka > 0:
+            # sqrt(c * prod b^(2e)) = sqrt(c) * prod |b|^e
+            r = Sym(dag.root(const(ka), 2))
+            for b, e in fa.items():
+                r = r * abs(Sym(b)) ** (e // 2)
+            return r
         return Sym(dag.root(n, 2))
 
     def exp(s):
